@@ -10,7 +10,7 @@ CONSTANTS
   ProvValSet = {"s:x", "i:7", "b:true"}
   ProvMaxSpans = 3
   ProvCfgNames = {"a", "a_ra", "ra"}
-  ProvUTL = {TRUE, FALSE}
+  ProvUTL = {FALSE}
   ProvMix = "all"
 INVARIANTS TypeOK NFSound PermutationInvariant DuplicationInvariant IrrelevantCellsInvariant PairsDistinct PayloadSound ProvenanceInvariant AnyProvenanceInvariant OutConsistent
 CHECK_DEADLOCK FALSE
